@@ -462,11 +462,62 @@ class TxTable:
         st = self.owner._cur
         if not isinstance(key, TxIdStr):
             raise Unsupported('transcript lookup with a foreign key')
-        h = mk_tx_tagged(I, name='tx', tx_id=key, gene_id=st.gn.id)
+        gno = st.gene_of(key.idx)
+        h = mk_tx_tagged(I, name='tx', tx_id=key, gene_id=GeneKey(gno))
         for a in h.axioms + [strand_pm(h.strand)]:
             I.e.assume(a)
+        h.gn = st.genes.gene(gno).tag
         st.tx_lookups.append((key.idx, h))
         return h.obj
+
+
+class GeneKey:
+    """gene id string of gene number gno"""
+    def __init__(self, gno):
+        self.gno = gno
+
+    def sym_str(self, I):
+        return OpaqueStr(['gene_id', self.gno])
+
+    def sym_eq(self, I, other):
+        return isinstance(other, GeneKey) and (self.gno == other.gno)
+
+    def __hash__(self):
+        return hash(z3.simplify(self.gno).sexpr())
+
+    def __eq__(self, other):
+        return isinstance(other, GeneKey) and z3.simplify(self.gno).sexpr() == z3.simplify(other.gno).sexpr()
+
+
+class GeneTable:
+    """anno.genes: gene number -> gene model with its own start / end / strand (listed transcripts may belong to
+    different, overlapping genes)"""
+    def __init__(self, I):
+        e = I.e
+        self.I = I
+        self.gs, self.ge, self.gstrand = e.array('genes_start'), e.array('genes_end'), e.array('genes_strand')
+        self.cache = {}
+
+    def gene(self, gno):
+        key = z3.simplify(gno).sexpr()
+        if key not in self.cache:
+            gid = GeneKey(gno)
+            loc = SymObj('FeatureLocation', start=self.gs[gno], end=self.ge[gno], strand=self.gstrand[gno], seqname='chr1',
+                         reading_frame_index=None, start_offset=0, end_offset=0, ref=None, ref_db=None)
+            g = SymObj('GeneAnnotationModel', location=loc, chrom='chr1', attributes={'gene_id': gid}, type='gene', id=gid,
+                       qualifiers={}, source='GENCODE', frame=None, transcripts=[], exons=[])
+            g.tag = types.SimpleNamespace(obj=g, start=self.gs[gno], end=self.ge[gno], strand=self.gstrand[gno], id=gid, gno=gno)
+            self.I.e.assume(self.gs[gno] < self.ge[gno])
+            self.cache[key] = g
+        return self.cache[key]
+
+    def __getitem__(self, key):
+        return self.gene(key.gno)
+
+    def sym_getitem(self, I, key):
+        if not isinstance(key, GeneKey):
+            raise Unsupported('gene lookup with a foreign key')
+        return self.gene(key.gno)
 
 
 class GhostRecords:
@@ -494,18 +545,18 @@ class RedConvert(Contract):
         rec = RedRec(I)
         I.abstract_truediv = True
         st = types.SimpleNamespace(rec=rec)
-        st.gn = mk_gene_tagged(I)
-        e.assume(z3.And(st.gn.start < st.gn.end))
+        st.genes = GeneTable(I)
+        st.gene_of = z3.Function('gene_of_listed_transcript', I_, I_)
         st.M = e.int('n_listed')
         e.assume(st.M >= 0)
         st.is_tx = z3.Function('listed_feature_is_transcript', I_, B_)
         st.pos = e.int('position')
         listed = FnView(st.M, lambda i: (TxIdStr(i if is_z3(i) else z3.IntVal(i)),
                                          FeatureStr(st.is_tx(i if is_z3(i) else z3.IntVal(i)))), tag='transcript_id')
-        st.tx_lookups, st.appended, st.valid_calls = [], [], []
+        st.tx_lookups, st.appended, st.valid_calls, st.inner_inits = [], [], [], []
         robj = rec.obj(I, position=st.pos, transcript_id=listed)
         robj.tag = rec
-        anno = SymObj('GenomicAnnotation', genes={st.gn.id: st.gn.obj}, transcripts=TxTable(self),
+        anno = SymObj('GenomicAnnotation', genes=st.genes, transcripts=TxTable(self),
                       source='GENCODE', gene_id_version_mapper=None, version=None, _cached_tx_seqs=[])
         st.args = [robj, anno]
         st.kwargs = dict(rec.th)
@@ -543,7 +594,7 @@ class RedConvert(Contract):
         items = [('one-transcript-lookup-per-iteration', len(st.tx_lookups) == st.n_lookup_before + 1)]
         if len(st.appended) == st.n_app_before:
             # nothing appended on this path: either the site is not exonic here, or no substitution is accepted
-            reached_inner = bool(st.valid_calls) and st.valid_calls[-1] == len(st.tx_lookups)
+            reached_inner = bool(st.inner_inits) and st.inner_inits[-1] == len(st.tx_lookups)
             if reached_inner:
                 items.append(('inner-loop-only-for-exonic-site', exonic))
             else:
@@ -570,6 +621,10 @@ class RedConvert(Contract):
             return callee.summary(I, [obj] + list(a), k)
         reg.method_('REDItoolsRecord', 'get_valid_subs', get_valid_subs)
 
+        def stale(I, obj, attr):
+            I.e.prove(f"C14/reditools/each-transcript-handled-on-its-own (no value of an earlier transcript reused: {obj.fields['name']})", False)
+        reg.on_stale_use = stale
+
     def step2(self, I, env, k):
         st = self._cur
         new = st.appended[st.n_app_before:]
@@ -578,7 +633,7 @@ class RedConvert(Contract):
 
     @property
     def loops(self):
-        inner = LoopSpec(inv=self.inv2, step=self.step2)
+        inner = LoopSpec(inv=self.inv2, step=self.step2, on_init=lambda I, env: self._cur.inner_inits.append(len(self._cur.tx_lookups)))
         return {0: LoopSpec(inv=self.inv0, havoc=self.havoc0),
                 1: LoopSpec(inv=lambda I, env, k: [], havoc=self.havoc1, on_head=self.head1, step=self.step1),
                 2: inner}
@@ -586,19 +641,20 @@ class RedConvert(Contract):
     def on_append(self, I, record):
         e = I.e
         st = self._cur
-        rec, gn = st.rec, st.gn
+        rec = st.rec
         ok_shape = isinstance(record, SymObj) and record.cls == 'VariantRecord' and st.tx_lookups
         e.prove('C14/reditools/append/is-a-variant-record-of-a-looked-up-transcript', bool(ok_shape))
         if not ok_shape:
             st.appended.append((record, None))
             return
         idx, h = st.tx_lookups[-1]
+        gn = h.gn                      # the gene of this transcript
         loc = record.fields['location']
         g = st.pos - 1
         e.prove('C14/reditools/record-only-for-a-transcript-in-which-the-site-is-exonic', z3.Not(no_exon(h, g)))
         e.prove('C14/reditools/record-at-the-gene-position-of-the-genomic-coordinate',
                 z3.And(gn.start <= g, g < gn.end, loc.fields['start'] == g2gene_val(gn, g),
-                       loc.fields['end'] == loc.fields['start'] + 1, loc.fields['seqname'] == gn.id))
+                       loc.fields['end'] == loc.fields['start'] + 1, as_bool(I.eq(loc.fields['seqname'], gn.id))))
         ref, alt = record.fields['ref'], record.fields['alt']
         good = isinstance(ref, PStr) and isinstance(alt, PStr) and isinstance(ref.tag, tuple) and isinstance(alt.tag, tuple) \
             and ref.tag[0] == 'sub' and alt.tag[0] == 'sub' and ref.tag[2] == 0 and alt.tag[2] == 1 and ref.tag[1] is alt.tag[1]
@@ -626,8 +682,9 @@ class RedConvert(Contract):
 
     def post_raise(self, I, st, exc):
         # only the gene lookup can raise: the site is exonic in a transcript that lies outside its gene
+        gn = st.tx_lookups[-1][1].gn if st.tx_lookups else None
         I.e.prove('C14/reditools/raise/only-from-the-gene-coordinate-conversion',
-                  z3.Not(z3.And(st.gn.start <= st.pos - 1, st.pos - 1 < st.gn.end, strand_pm(st.gn.strand))))
+                  z3.Not(z3.And(gn.start <= st.pos - 1, st.pos - 1 < gn.end, strand_pm(gn.strand))) if gn is not None else False)
 
 
 # ----------------------------------------------------------------------------
@@ -759,10 +816,17 @@ class NativeRed(NativeCheck):
                    subs=['AG'], th=[1, 0.1, 1, 1])          # F7 witness (fixed)
         yield dict(txs=[[(150, 350)]], gene=(100, 400), strand=1, position=361, counts=[10, 0, 10, 0], gcov=-1,
                    subs=['AG'], th=[1, 0.1, 1, 1])
+        yield dict(txs=[[(20, 40)], [(10, 50)]], gene=(20, 40), gene2=(5, 60), tx_gene=[0, 1], strand=1, position=31,
+                   counts=[10, 0, 10, 0], gcov=-1, subs=['AG'], th=[1, 0.1, 1, 1])     # overlapping genes
         for _ in range(300 if tier != 'thorough' else 5000):
             txs = [realobj.random_exons(rng, 10, 60, 4) for _ in range(rng.randint(1, 3))]
             gs = min(t[0][0] for t in txs) - rng.randint(0, 2)
             ge = max(t[-1][1] for t in txs) + rng.randint(0, 2)
+            if rng.random() < 0.4:
+                yield dict(txs=txs, gene=(gs, ge), gene2=(gs - rng.randint(1, 5), ge + rng.randint(0, 5)),
+                           tx_gene=[rng.randint(0, 1) for _ in txs], strand=rng.choice([1, -1]), position=rng.randint(gs - 1, ge + 2),
+                           counts=[5, 5, 5, 5], gcov=-1, subs=['AG'], th=[1, 0.1, 1, 1])
+                continue
             counts = [rng.choice([0, 1, 2, 5, 20]) for _ in range(4)]
             if sum(counts) == 0:
                 counts[0] = 3
@@ -777,13 +841,16 @@ class NativeRed(NativeCheck):
         gs, ge = inp['gene']
         strand = inp['strand']
         ids = [f'T{i}' for i in range(len(inp['txs']))]
-        anno = realobj.anno_from([dict(id='G', start=gs, end=ge, strand=strand, transcripts=ids)],
-                                 [dict(id=i, gene='G', strand=strand, exons=[tuple(x) for x in ex])
-                                  for i, ex in zip(ids, inp['txs'])])
+        genes = [(gs, ge)] + ([tuple(inp['gene2'])] if inp.get('gene2') else [])
+        tx_gene = inp.get('tx_gene') or [0] * len(ids)
+        anno = realobj.anno_from([dict(id=f'G{q}', start=a_, end=b_, strand=strand,
+                                       transcripts=[i for i, g_ in zip(ids, tx_gene) if g_ == q]) for q, (a_, b_) in enumerate(genes)],
+                                 [dict(id=i, gene=f'G{g_}', strand=strand, exons=[tuple(x) for x in ex])
+                                  for i, ex, g_ in zip(ids, inp['txs'], tx_gene)])
         pos = inp['position']
         rec = REDItoolsRecord(region='chr1', position=pos, reference='A', strand=strand, coverage_q=30, mean_quality=30.0,
                               base_count=list(inp['counts']), all_subs=[(s[0], s[1]) for s in inp['subs']], frequency=0.5,
-                              g_coverage_q=inp['gcov'], transcript_id=[(i, 'transcript') for i in ids] + [('G', 'gene')])
+                              g_coverage_q=inp['gcov'], transcript_id=[(i, 'transcript') for i in ids] + [('G0', 'gene')])
         a, f, r, d = inp['th']
         total = sum(inp['counts'])
         order = 'ACGT'
@@ -791,9 +858,10 @@ class NativeRed(NativeCheck):
         oksubs = [s for s in inp['subs'] if gate and inp['counts'][order.index(s[1])] >= a
                   and inp['counts'][order.index(s[1])] / total >= f]
         exp = []
-        for i, ex in zip(ids, inp['txs']):
+        for i, ex, g_ in zip(ids, inp['txs'], tx_gene):
             if any(s <= pos - 1 < e for s, e in ex):
-                gp = pos - 1 - gs if strand == 1 else ge - 1 - (pos - 1)
+                g0, g1 = genes[g_]
+                gp = pos - 1 - g0 if strand == 1 else g1 - 1 - (pos - 1)
                 exp += [(i, gp, gp + 1, s[0], s[1]) for s in oksubs]
         try:
             got = rec.convert_to_variant_records(anno, a, f, r, d)
